@@ -6,7 +6,8 @@
 (* the script replayed on the real connection.                                 *)
 EXTENDS Integers, Sequences, FiniteSets, TLC, Json
 
-CONSTANTS MaxTrees, SimDepth, Deep
+CONSTANTS MaxTrees, SimDepth, Deep,
+          CancelFirst   \* 0, or the request whose caller gives up right after sending (before any server payload)
 
 Reqs == {1, 2}
 
@@ -73,9 +74,19 @@ Deliver(m) ==
   /\ wrong' = (wrong \/ \E j \in 1..Len(Outs(m)) : Outs(m)[j].k \notin Reqs /\ FALSE)
   /\ hist' = Append(hist, [op |-> "srv", msg |-> m])
 
-Init == rq = [k \in Reqs |-> <<"pending">>] /\ n = 0 /\ wrong = FALSE
+\* the caller of request k gives up: Invoke asks the server to drop the answer (rpc_drop_answer, never answered in these
+\* scripts) and payloads naming k may still arrive while that is under way; they complete nothing any more
+CancelReq(k) ==
+  /\ n < MaxTrees /\ n' = n + 1 /\ rq[k] = <<"pending">>
+  /\ \A j \in Reqs : rq[j] # <<"ctx">>          \* at most one per script
+  /\ rq' = [rq EXCEPT ![k] = <<"ctx">>]
+  /\ hist' = Append(hist, [op |-> "cancel", who |-> "i", k |-> k])
+  /\ UNCHANGED wrong
+
+Init == rq = [k \in Reqs |-> IF k = CancelFirst THEN <<"ctx">> ELSE <<"pending">>] /\ n = 0 /\ wrong = FALSE
         /\ hist = <<[op |-> "invoke", k |-> 1], [op |-> "invoke", k |-> 2], [op |-> "ping", k |-> 3]>>
-Next == \E m \in Trees : Deliver(m)
+                  \o (IF CancelFirst = 0 THEN <<>> ELSE <<[op |-> "cancel", who |-> "i", k |-> CancelFirst]>>)
+Next == (\E m \in Trees : Deliver(m)) \/ (\E k \in Reqs : CancelReq(k))
 
 \* a request only ever completes with an outcome carried by a message naming it (by construction of Outs)
 OwnOnly == ~wrong
